@@ -45,6 +45,12 @@ func coqDecl(d *Decl) string {
 	case DStruct:
 		var fs []string
 		for _, f := range d.Fields {
+			if f.Name == "_" {
+				// a blank field is no field of the model's struct: no Go program can read or write it, == ignores it and
+				// the repaired Frag skips it (fixes/C17-blank-field.diff): the model of a struct with blank fields is the
+				// model of the struct without them (before the repair the observed `out._ = in._` equals no model statement)
+				continue
+			}
 			fs = append(fs, fmt.Sprintf("(%s, %s)", core.Hex(f.Name), coqFty(f)))
 		}
 		kind = fmt.Sprintf("(DStruct %s %s)", hexList(d.TParams), core.CoqList(fs))
